@@ -107,6 +107,11 @@ def structured(rng, loops=False):
         ("C10", 10, cyc(list(range(9, -1, -1)))),
         ("ladder2x5", 10, [(i, i + 1) for i in range(4)] + [(i + 5, i + 6) for i in range(4)] + [(i, i + 5) for i in range(5)]),
         ("star7+rim-edge", 8, [(0, v) for v in range(1, 8)] + [(3, 2)]),
+        # vertices whose degree passes 16 / 32 (aggregate helpers over long operand lists): every cycle goes through
+        # the hub and uses one of its last-added incident edges
+        ("star17+rim", 18, [(0, v) for v in range(1, 18)] + [(1, 17), (16, 17)]),
+        ("star33+rim-desc", 34, [(v, 0) for v in range(1, 34)] + [(33, 1), (33, 32)]),
+        ("bundle17", 2, bundle(17)),
     ]
     for extra in (3, 4, 6):
         n, es = dense7(rng, extra)
